@@ -1,17 +1,18 @@
 #!/bin/bash
 # usage: selftest/try_scratch.sh <patch> <PROP> [tier]
 # like try.sh but entirely on scratch copies (worktree of /repo HEAD + copy of the harness with its own target dir)
-# under /tmp/mayverif-try, so that /repo and /verif/target-hooks stay untouched. Remove the directory when done:
+# (FEATURES=--no-default-features builds the runtime without work_steal) under /tmp/mayverif-try, so that /repo and /verif/target-hooks stay untouched. Remove the directory when done:
 #   git -C /repo worktree remove --force /tmp/mayverif-try/wt; rm -rf /tmp/mayverif-try
 P="$(realpath "$1")"; ID="$2"; TIER="${3:-quick}"; S=/tmp/mayverif-try
 export CARGO_NET_OFFLINE=true
 if [ ! -d "$S/wt" ]; then mkdir -p "$S/out"; git -C /repo worktree prune; git -C /repo worktree add -q --detach "$S/wt" HEAD || exit 2; fi
 git -C "$S/wt" checkout -q --detach "$(git -C /repo rev-parse HEAD)"; git -C "$S/wt" checkout -q -- .
 rm -rf "$S/harness"; cp -r /verif/harness "$S/harness"
-sed -i "s|may = { path = \"/repo\" }|may = { path = \"$S/wt\" }|" "$S/harness/Cargo.toml"
+sed -i "s|path = \"/repo\"|path = \"$S/wt\"|" "$S/harness/Cargo.toml"
+grep -q "$S/wt" "$S/harness/Cargo.toml" || { echo "harness copy still points at /repo"; exit 2; }
 sed -i "s|target-dir = \"/verif/target-hooks\"|target-dir = \"$S/target-hooks\"|" "$S/harness/.cargo/config.toml"
 git -C "$S/wt" apply --3way "$P" 2>/dev/null || git -C "$S/wt" apply "$P" || { echo "patch does not apply"; exit 3; }
-(cd "$S/harness" && cargo build --offline > "$S/out/build.log" 2>&1) || { echo "harness build failed"; tail -20 "$S/out/build.log"; exit 2; }
+(cd "$S/harness" && cargo build --offline $FEATURES > "$S/out/build.log" 2>&1) || { echo "harness build failed"; tail -20 "$S/out/build.log"; exit 2; }
 MAYVERIF_OUT="$S/out" MAYVERIF_TMP="$S/out" "$S/target-hooks/debug/mayverif" check "$ID" --tier "$TIER" > "$S/out/check.out" 2> "$S/out/check.err"; RC=$?
 git -C "$S/wt" reset -q --hard
 grep -E "^(VIOLATION|KNOWN-FINDING|MACHINERY|C[0-9]+ )" "$S/out/check.out" | cut -c1-200 | head -6
